@@ -315,6 +315,33 @@ def run(rep, tier):
                     if kind(a) == "AddrOf" and a.get("mut") and vec_field(a["e"]) in popped_fields:
                         return True
                 return False
+            # which end: `pop` appends what it removes, top-down, so within the cleared snapshot's segment of the
+            # popped vector the elements an older snapshot still needs (its own originals, the deepest ones) are
+            # the LAST ones.  Where a parent snapshot exists, the merge must therefore remove from the front of the
+            # segment; an operation that can only cut a suffix (truncate / pop / clear) keeps the wrong elements.
+            has_parent = any(
+                (e.kind == "cond" and kind(peel(e.node)) == "LetExpr" and e.extra is True and any(
+                    kind(x) == "MethodCall" and x["m"] in ("last_mut", "last") and vec_field(x["recv"]) == snap
+                    for x in walk(e.node)))
+                or (e.kind == "arm" and any(v.endswith("Option::Some") for v in hirq.pat_variants(e.node["arms"][e.extra]["pat"]))
+                    and any(kind(x) == "MethodCall" and x["m"] in ("last_mut", "last") and vec_field(x["recv"]) == snap
+                            for x in walk(e.node["scrut"])))
+                for e in ev)
+            appends = pop is not None and any(kind(x) == "MethodCall" and x["m"] == "push" and vec_field(x["recv"]) in popped_fields
+                                              for x in walk(pop["body"]))
+            if has_parent and appends:
+                ops = [e.node for e in ev if e.kind == "call" and kind(e.node) == "MethodCall"
+                       and vec_field(e.node["recv"]) in popped_fields and e.node["m"] not in ("len", "is_empty", "capacity")]
+                handed = any(kind(a) == "AddrOf" and a.get("mut") and vec_field(a["e"]) in popped_fields
+                             for e in ev if e.kind == "call" for a in hirq.call_args(e.node))
+                r5.instance("clear:which-end", where(cs["body"]), ",".join(o["m"] for o in ops))
+                if ops and not handed and all(o["m"] in ("truncate", "pop", "clear") for o in ops):
+                    r5.violation("clear:which-end", where(ops[0]),
+                                 "with a parent snapshot present, clear_snapshot only cuts the END of the popped vector "
+                                 "(%s), but pop appends: the elements the parent still needs are the last ones of the "
+                                 "cleared snapshot's segment, so the parent's restore reinstates elements pushed after "
+                                 "its snapshot" % ",".join(o["m"] for o in ops))
+                    break
             if not any(adjusts(e) for e in ev):
                 r5.violation("clear:adjust", where(cs["body"]), "a path of clear_snapshot consumes a snapshot entry without "
                              "adjusting the popped vector: what the cleared snapshot recorded stays behind and is replayed "
